@@ -248,9 +248,10 @@ path:                 /* at this point, p must point to an absolute path */
 
     if (p < q) {
       COAP_SET_STR(&uri->path, q - p, p);
-      p = q;
     }
   }
+  /* q is where scanning stopped: the query, if any, starts here */
+  p = q;
 
   /* Uri_Query */
   if (len && *p == '?') {
